@@ -225,6 +225,8 @@ CandStep(k, rec, ly) ==
      /\ (shape =>
            /\ Require(same, k, rec, "C11", "candidates are not masks of the same placed codewords")
            /\ PrintT(<<"NOTE", ToJson([id |-> rec.id, documented |-> pen, used |-> used, chosen |-> rec.chosen, agree |-> (used = pen)])>>)
+           \* growth (not a listed property: any order-equivalent score would satisfy C11): the score the crate ranks by IS the documented penalty
+           /\ Require(used = pen, k, rec, "G02", "score used for ranking differs from the documented penalty of that candidate")
            /\ Require(pen[idx] = MinOfSeq(pen), k, rec, "C11", "chosen mask does not minimise the documented penalty"))
 
 (* ---------------- renderers: read-only actions on a built QR code ---------------- *)
@@ -376,8 +378,34 @@ HRenderStep(k, rec, s0) == LET s == Fresh(s0, rec)
   THEN [s EXCEPT !.rmemo = IF prev = <<>> THEN Append(s.rmemo, <<key, rec.hash>>) ELSE s.rmemo]
   ELSE s
 
+(* ---------------- growth: conversions and the Module API (reported under G-ids, never under a listed property) ---------------- *)
+ConvColorStep(k, rec) ==
+  IF rec.how = "str" THEN Require(rec.kind = "Ok" /\ rec.out = rec.c, k, rec, "G03", "colour string not passed through")
+  ELSE IF Len(rec.c) \in {3, 4}
+  THEN /\ Require(rec.kind = "Ok", k, rec, "G03", "colour conversion did not return: " \o rec.kind)
+       /\ Require(rec.kind # "Ok" \/ rec.out = ColorCps(rec.c), k, rec, "G03", "RGBA array not rendered as #rrggbb / #rrggbbaa")
+  ELSE Require(rec.kind # "Ok" /\ rec.kind # "Timeout", k, rec, "G03", "slice of the wrong length accepted (documented: panics with Invalid color length)")
+ShapeNames == << <<115,113,117,97,114,101>>, <<99,105,114,99,108,101>>, <<114,111,117,110,100,101,100,95,115,113,117,97,114,101>>,
+                 <<118,101,114,116,105,99,97,108>>, <<104,111,114,105,122,111,110,116,97,108>>, <<100,105,97,109,111,110,100>> >>
+ConvShapeStep(k, rec) ==
+  LET low == [i \in 1..Len(rec.name) |-> LowerCp(rec.name[i])]
+      want == IF \E j \in 1..6 : ShapeNames[j] = low THEN (CHOOSE j \in 1..6 : ShapeNames[j] = low) - 1 ELSE 0     \* unknown names fall back to square
+  IN /\ Require(rec.index = want, k, rec, "G03", "shape name parsed to the wrong shape")
+     /\ Require(rec.back = ShapeNames[rec.index + 1], k, rec, "G03", "shape does not print its own name")
+\* a module is a (value, type) pair: constructors build it, set overwrites the value, toggle flips it, the type never changes
+ModuleApiStep(k, rec) ==
+  /\ Require(rec.new = <<rec.value, rec.type>> /\ rec.ctor = <<rec.value, rec.type>>, k, rec, "G04", "module constructor")
+  /\ Require(rec.set1 = <<1, rec.type>> /\ rec.set0 = <<0, rec.type>>, k, rec, "G04", "Module::set changes more than the value")
+  /\ Require(rec.toggle = <<1 - rec.value, rec.type>>, k, rec, "G04", "Module::toggle changes more than the value")
+QrDefaultStep(k, rec) ==
+  Require(rec.reported = rec.size /\ rec.all_default = 1 /\ rec.rowlen = rec.size /\ rec.fields_none = 1, k, rec, "G04", "QRCode::default is not an all-light, all-data square without fields")
+
 StepOf(k, rec, ly, s) ==
-  CASE rec.ev = "HNew" -> HNewStep(k, rec, s)
+  CASE rec.ev = "ConvColor" -> (IF ConvColorStep(k, rec) THEN s ELSE s)
+    [] rec.ev = "ConvShape" -> (IF ConvShapeStep(k, rec) THEN s ELSE s)
+    [] rec.ev = "ModuleApi" -> (IF ModuleApiStep(k, rec) THEN s ELSE s)
+    [] rec.ev = "QrDefault" -> (IF QrDefaultStep(k, rec) THEN s ELSE s)
+    [] rec.ev = "HNew" -> HNewStep(k, rec, s)
     [] rec.ev = "HSet" -> HSetStep(k, rec, s)
     [] rec.ev = "HBuild" -> HBuildStep(k, rec, ly, s)
     [] rec.ev = "HRender" -> HRenderStep(k, rec, s)
